@@ -18,7 +18,7 @@ import zipfile
 
 from run import Broken, Violation
 
-GEN = ["HtmlSkip"]
+GEN = ["HtmlSkip", "PyHtmlTree", "PyEpubXhtml"]
 RULE = ("documents = flat sequences of visible items (text, open/close/self-closed tags of block, inline, table, void "
         "and unknown elements, stray end tags, unclosed tags) interleaved at every position with removed elements "
         "(script, style, noscript, iframe, object, embed, applet) whose content is drawn from text, void tags, "
